@@ -629,7 +629,7 @@ static void w32_run(uint64_t c)
 }
 VF_SUITE(w32, w32_count, w32_run)
 
-static uint64_t w64_count() { return (vf::thorough() ? 50000000ull : 1000000ull) / RB; }
+static uint64_t w64_count() { return (vf::thorough() ? 24000000ull : 1000000ull) / RB; }
 static void w64_run(uint64_t c)
 {
     vf::Rng r(vf::seed(), 0xC0764, c);
